@@ -41,6 +41,9 @@ type Case struct {
 	Nsec      uint32     `json:"nsec"`
 	Unescaped bool       `json:"unescaped"`
 	Outputs   int        `json:"outputs"` // number of serializers applied in sequence to the same record (multi-output)
+	SmallBuf  bool       `json:"smallBuf,omitempty"` // the record limit (a defs variable; the serializer's buffer starts at twice that) is scaled down
+	// to 64 bytes, so that almost every record is larger than the buffer and takes the path on which the buffer is re-made
+	// with exactly the estimated length - any under-estimate of the encoder's output shows
 }
 
 func (c Case) yaml() string {
@@ -84,6 +87,10 @@ func run(c Case) vh.Result {
 	res := vh.Result{}
 	defs.InputLogMaxMessageBytes = 200000
 	defs.InputLogMaxRecordBytes = 200256
+	if c.SmallBuf {
+		defs.InputLogMaxRecordBytes = 64
+		res.Classes = append(res.Classes, "record-larger-than-the-serializer-buffer(estimate is exact)")
+	}
 	schema, err := base.NewLogSchema(c.Names, c.MaxFields)
 	if err != nil {
 		panic(err)
@@ -341,6 +348,15 @@ func gen(t *rapid.T) Case {
 	c.Nsec = rapid.Uint32Range(0, 999999999).Draw(t, "nsec")
 	c.Unescaped = rapid.IntRange(0, 3).Draw(t, "unescaped") == 3
 	c.Outputs = rapid.SampledFrom([]int{1, 1, 2, 3}).Draw(t, "outputs")
+	c.SmallBuf = rapid.IntRange(0, 2).Draw(t, "smallBuf") == 0
+	if c.SmallBuf && rapid.Bool().Draw(t, "emptyEnv") {
+		// empty environment fields are still written (key + 1 byte): empty a few of them
+		for _, i := range c.Env {
+			if rapid.Bool().Draw(t, "emptyIt") {
+				c.Values[i] = nil
+			}
+		}
+	}
 	return c
 }
 
@@ -360,6 +376,22 @@ func enumLengths(yield func(Case) bool) {
 			c := Case{Names: []string{"plain", "copied", "unesc", "envf", "inl"}, MaxFields: 5, Env: []int{3},
 				Rewrites: []Rewrite{{Field: 1, Last: "copy"}, {Field: 2, Inline: []int{4}, Last: "unescape"}},
 				Values:   [][]vh.Seg{val, val, val, val, {{Raw: []byte("K"), Rep: n % 3}}}, Sec: 1600000000, Nsec: 5, Outputs: 1}
+			if !yield(c) {
+				return
+			}
+		}
+	}
+	// small buffer: k long-named environment fields, all empty, and one visible value of growing length
+	for k := 1; k <= 5; k++ {
+		for _, n := range []int{0, 1, 40, 100, 127, 128, 129, 200, 255, 256, 300, 1000, 70000} {
+			names := []string{"log", "a_very_long_field_name_beyond_15", "exactly16chars___", "exactly15chars__", "kubernetes_namespace_name_x", "kubernetes_container_name_y"}[:k+1]
+			env := []int{}
+			vals := [][]vh.Seg{{{Raw: []byte("v"), Rep: n}}}
+			for i := 1; i <= k; i++ {
+				env = append(env, i)
+				vals = append(vals, nil)
+			}
+			c := Case{Names: names, MaxFields: len(names), Env: env, Values: vals, Sec: 1, Nsec: 2, Outputs: 1, SmallBuf: true}
 			if !yield(c) {
 				return
 			}
